@@ -7,7 +7,7 @@ Open Scope N_scope.
 Record case := { k_scn : scenario;
                  k_picks : list endpoint;
                  k_obs : observation;
-                 k_flags : list bool;
+                 k_flag : bool;
                  k_final : reply }.
 
 Definition check (k : case) : verdict :=
